@@ -128,6 +128,9 @@ func (r *KeywordCaseRule) Check(ctx *linter.Context) ([]linter.Violation, error)
 		offset += len(line) + 1
 
 		for _, word := range words {
+			if !isASCIIWord(word.text) {
+				continue // keywords are ASCII: a word with U+017F or U+0131 only upper-cases to one
+			}
 			upperWord := strings.ToUpper(word.text)
 			if sqlKeywords[upperWord] {
 				// Check if case matches preferred style
@@ -237,6 +240,16 @@ func tokenizeClassifiedLine(line string, classes []tokenizer.ByteClass) []wordTo
 	return words
 }
 
+// isASCIIWord reports whether the word consists of ASCII bytes only.
+func isASCIIWord(w string) bool {
+	for i := 0; i < len(w); i++ {
+		if w[i] >= 0x80 {
+			return false
+		}
+	}
+	return true
+}
+
 // isParameterName reports whether the word starting at byte start of line is
 // the name of a parameter (@from, :limit): it is part of the placeholder token,
 // never a keyword. A cast (a::date) is not a parameter.
@@ -338,7 +351,7 @@ func (r *KeywordCaseRule) fixLine(line string, classes []tokenizer.ByteClass) st
 // Returns the word in preferred case if it's a keyword, otherwise unchanged.
 func (r *KeywordCaseRule) convertKeyword(word string) string {
 	upperWord := strings.ToUpper(word)
-	if sqlKeywords[upperWord] {
+	if isASCIIWord(word) && sqlKeywords[upperWord] {
 		if r.preferredStyle == CaseUpper {
 			return upperWord
 		}
